@@ -2,7 +2,7 @@
 CHECK = {'level': 'exploration',
  'exhaustive': False,
  'rule': 'case = (2 documents with seeds none/gateway/external/external+imported; scripts for external writers (Set/SetRaw/Update/Delete on the un-hooked store, '
-         'unique bodies), gateway writers (Put with current rev/blind Put/DeleteDoc/ResyncDocument), gateway readers (GetDocument/Get1xRevBody/GetDocSyncData) and '
+         'unique bodies), gateway writers (Put with current rev/blind Put/DeleteDoc/ResyncDocument, the sync function is switched between seeds and run in half of the cases so that resync really rewrites - also on top of a not yet imported external write), gateway readers (GetDocument/Get1xRevBody/GetDocSyncData) and '
          'feed actors (deliver next / de-duplicated / duplicate / stale recorded event to importListener.ProcessFeedEvent; two feed actors = two CE nodes); a budget '
          'of external writes injected into compute->CAS windows of gateway writes and imports (vs.SetMid); a random schedule of the storage steps). Workloads per '
          'seed: ondemand 120/2000, schedfeed 120/2000, auto (real listener) 60/1000 = 300/5000 schedules; gateway-writes-only 30+30+15 / 300+300+150; race part '
@@ -18,9 +18,11 @@ CHECK = {'level': 'exploration',
                   'sched.schedfeed.latest_external_write_checked_imported': 70, 'sched.schedfeed.external_write_in_import_cas_window': 15,
                   'sched.auto.import_commits': 80, 'sched.auto.imports_committed_by_listener': 50, 'sched.auto.events_processed_by_real_listener': 300,
                   'sched.auto.latest_external_write_checked_imported': 40, 'sched.auto.idempotence_redeliveries': 250,
-                  'sched.own-auto.gateway_writes_acknowledged': 70, 'sched.own-auto.events_processed_by_real_listener': 100, 'sched.own-auto.own_versions_recognisable_only_by_checksum': 3,
-                  'sched.own-schedfeed.gateway_writes_acknowledged': 70, 'sched.own-schedfeed.feed_events_delivered': 70, 'sched.own-schedfeed.own_versions_recognisable_only_by_checksum': 3,
+                  'sched.own-auto.gateway_writes_acknowledged': 70, 'sched.own-auto.events_processed_by_real_listener': 100,
+                  'sched.own-schedfeed.gateway_writes_acknowledged': 70, 'sched.own-schedfeed.feed_events_delivered': 70,
                   'sched.own-ondemand.gateway_writes_acknowledged': 30,
+                  'sched.ondemand.same_revision_rewrites_over_pending_external_write': 3, 'sched.schedfeed.same_revision_rewrites_over_pending_external_write': 4,
+                  'sched.ondemand.gateway_resync_rewrites': 8, 'sched.schedfeed.gateway_resync_rewrites': 8, 'sched.own-auto.gateway_resync_rewrites': 6,
                   'sched.ondemand.changes_feed_entries_checked': 100, 'sched.schedfeed.changes_feed_entries_checked': 100, 'sched.auto.changes_feed_entries_checked': 50,
                   'race.race.import_commits': 40, 'race.race.events_processed_by_real_listener': 150, 'race.race.latest_external_write_checked_imported': 20},
  'race_files': ['db/import.go', 'db/import_listener.go', 'db/document.go', 'db/crud.go', 'db/change_cache.go'],
